@@ -269,21 +269,27 @@ class AppCfgMgr:
 
         for container in configured:
             appname = appcfg.app_name(container)
-            if os.path.exists(os.path.join(self.tm_env.running_dir, appname)):
+            running_link = os.path.join(self.tm_env.running_dir, appname)
+            # NOTE: several containers (generations) of the same instance can
+            #       exist, the running link belongs to only one of them.
+            if (os.path.exists(running_link) and
+                    os.path.basename(
+                        self._resolve_running_link(running_link)
+                    ) == container):
                 # App already running.. check if in cache.
                 # No need to check if needs cleanup as that is handled
                 if appname not in cached or cached[appname] != container:
                     self._terminate(appname)
                 else:
                     _LOGGER.info('Ignoring %s as it is running', appname)
-
-                cached.pop(appname, None)
+                    cached.pop(appname, None)
 
             elif os.path.exists(os.path.join(self.tm_env.cleanup_dir,
                                              appname)):
                 # Already in the process of being cleaned up
                 _LOGGER.info('Ignoring %s as it is in cleanup', appname)
-                cached.pop(appname, None)
+                if cached.get(appname) == container:
+                    cached.pop(appname, None)
 
             else:
                 needs_cleanup = True
